@@ -1,8 +1,9 @@
 use crate::{
     cfg::Cfg,
-    parser::{Label, ParserNode},
+    parser::{HasIdentity, Label, ParserNode},
     passes::{DiagnosticManager, LintError, LintPass},
 };
+use std::collections::BTreeSet;
 use uuid::Uuid;
 
 /// A lint to ensure warn about instructions that exist in more than one
@@ -15,12 +16,27 @@ use uuid::Uuid;
 pub struct OverlappingFunctionCheck;
 impl LintPass for OverlappingFunctionCheck {
     fn run(cfg: &Cfg, errors: &mut DiagnosticManager) {
+        // The functions of the previous node in program order
+        let mut previous = BTreeSet::new();
         for node in cfg {
-            // Capture entry points that are part of more than one function
-            // NOTE: We only give an error for the first line of a function,
+            // Capture the places where code starts to be part of more than one function:
+            // entry points of functions, and the first instruction of a shared region that
+            // does not start at an entry point (ex. a jump into the middle of a function).
+            // NOTE: We only give an error for the first line of a shared region,
             //       even though there may be many overlapping instructions.
             //       This is done to not overwhelm the user with errors.
-            if node.functions().len() > 1 && node.is_function_entry_with_func().is_some() {
+            let current = node
+                .functions()
+                .iter()
+                .map(|func| func.id())
+                .collect::<BTreeSet<_>>();
+            let starts_shared_region = current.len() > 1 && current != previous;
+            let is_shared_entry = current.len() > 1 && node.is_function_entry_with_func().is_some();
+            previous = current;
+            if starts_shared_region || is_shared_entry {
+                let mut funcs = node.functions().clone().into_iter().collect::<Vec<_>>();
+                funcs.sort_by_key(|f| f.name());
+
                 // HACK: Create a dummy label with the same name
                 let mut labels = node.labels().into_iter().collect::<Vec<_>>();
                 labels.sort();
@@ -32,17 +48,14 @@ impl LintPass for OverlappingFunctionCheck {
                         token: l.raw_token().clone(),
                     })
                     .collect::<Vec<_>>();
-                let label = labels.first();
 
-                if let Some(l) = label {
-                    errors.push(LintError::NodeInManyFunctions(
+                match labels.first() {
+                    Some(l) => errors.push(LintError::NodeInManyFunctions(
                         ParserNode::Label(l.clone()),
-                        {
-                            let mut funcs = node.functions().clone().into_iter().collect::<Vec<_>>();
-                            funcs.sort_by_key(|f| f.name());
-                            funcs
-                        },
-                    ));
+                        funcs,
+                    )),
+                    // A shared region without a label is reported on its first instruction
+                    None => errors.push(LintError::NodeInManyFunctions(node.node(), funcs)),
                 }
             }
         }
